@@ -1,271 +1,30 @@
 """Registry of checks: which harness units decide which property.
 
-unit keys: name, module ("" = root module, "sdk"), pkg (go package pattern relative
-to the module dir), run (go test -run regex), shards {tier: n}, timeout {tier: s},
-rewrite {import: [roots]} (import rewriting through the overlay), gomaxprocs, env.
+One module per property lives in bin/checks.d/<Cxx>.py and defines
+
+  CHECK = {"level": ..., "rule": ..., "assumptions": [...], "units": [unit, ...]}
+  META  = {"engines": ..., "technique": ..., "text": ..., "note": ...}
+
+unit keys: name, module ("" = root module, "sdk"), pkg (go package pattern relative to the module dir), run
+(go test -run regex), shards {tier: n}, timeout {tier: s}, rewrite {import: [roots]} (import rewriting through the
+overlay), gomaxprocs, env, ulimit_kb, tiers.
 """
+import glob
+import importlib.util
+import os
+import sys
 
-SYNC_RW = {"sync": ["internal", "sdk"]}
+_here = os.path.dirname(os.path.abspath(__file__))
+sys.path.insert(0, _here)
 
-RAFT_ENV = {"BAO_RAFT_INITIAL_MMAP_SIZE": "4194304"}
-
-RAFT_ENV = {"BAO_RAFT_INITIAL_MMAP_SIZE": "4194304"}
-
-CHECKS = {
-    "C05": {
-        "level": "exploration",
-        "rule": "L: every point of the lattice {increment, backend TTL, period, backend max, explicit max} in 6 values each x 3 system "
-                "(default,max) pairs x 6 elapsed times through the real CalculateTTL. R: BFS (depth 3/4) over renew(0|small|huge) / "
-                "age-stored-records(10s|500s|2000s)+restart / restart on 6 credential kinds on a real Core; every renew response and "
-                "every stored lease is checked against issue+effective max, expired leases must refuse renewal and be revoked, and the "
-                "stored-lease = tracked-lease invariant must hold in every state. K: crash after every durable mutation of renew and "
-                "revoke, restart, invariant. distinct non-trivial = distinct (outcome class, which bounds are active) / model states",
-        "assumptions": [
-            "time passing is simulated by rewriting issue/expire times of the stored lease records through sys/raw and restarting "
-            "(no clock seam); every time-bound oracle carries a slack of 2 s",
-            "namespaces sealed/unsealed transitions are not varied in this check",
-        ],
-        "units": [
-            {"name": "lattice", "module": "sdk", "pkg": "./helper/verifh/c05l", "run": "^TestVerifC05L$",
-             "shards": {"quick": 8, "thorough": 8}, "timeout": {"quick": 600, "thorough": 1200}},
-            {"name": "core", "pkg": "./internal/verifh/core", "run": "^TestVerifC05$", "rewrite": SYNC_RW,
-             "shards": {"quick": 16, "thorough": 16}, "timeout": {"quick": 900, "thorough": 3400}},
-        ],
-    },
-    "C06": {
-        "level": "fault_enumeration",
-        "rule": "for each request kind {leased secret read, auth-backend login, token create, create-orphan, batch create; "
-                "secret/login/create also response-wrapped} on transactional (thorough: and plain) storage: a fault-free "
-                "pass counts the request's N storage operations and M durable mutations, then run k=1..N fails operation k "
-                "and run j=1..M crashes after mutation j and restarts; distinct non-trivial = distinct (request kind, "
-                "wrap, storage, failed operation kind and key class, client outcome) / (request, crash index)",
-        "assumptions": [
-            "deterministic crypto/rand seam: the token id a request generates is the same in the fault-free pass and in every fault pass",
-            "lease/index records are read from the physical key space (sys/expire/id/, sys/expire/token/); index values through sys/raw",
-        ],
-        "units": [
-            {"name": "core", "pkg": "./internal/verifh/core", "run": "^TestVerifC06$", "rewrite": SYNC_RW,
-             "shards": {"quick": 16, "thorough": 16}, "timeout": {"quick": 900, "thorough": 3400}},
-        ],
-    },
-    "C04": {
-        "level": "model_checking",
-        "rule": "H: BFS (depth 3/4) over create-child / create-orphan / 5 revocation entry points / renew / leased read / "
-                "cubbyhole write / restart, deduplicated by token-tree model state, oracle for every token after every step. "
-                "F: every failing storage op k of each revocation entry point on a 3-level tree with leases and cubbyhole "
-                "data, retried until success; crash after every durable mutation j, restart, retry. S: revoke(C) || "
-                "create-child(C) (|| third request) over all interleavings up to the preemption bound; "
-                "non-trivial = distinct model states / (entry point, failed op kind, attempts) / schedule outcomes",
-        "assumptions": [
-            "'usable' = accepted by a real request (auth/token/lookup-self); leases count as revoked when the backend's "
-            "revoke handler ran, after an explicit deterministic drain of all due leases",
-            "cubbyhole removal is judged on the physical keys written by that token",
-        ],
-        "units": [
-            {"name": "core", "pkg": "./internal/verifh/core", "run": "^TestVerifC04$", "rewrite": SYNC_RW, "gomaxprocs": 2,
-             "shards": {"quick": 16, "thorough": 16}, "timeout": {"quick": 1200, "thorough": 3400}},
-        ],
-    },
-    "C14": {
-        "level": "model_checking",
-        "rule": "S: every multiset of 2 (and selected/all 3) concurrent requests from {put cas=1, put, patch, read, read v1, "
-                "delete, delete v1, undelete v1, destroy v1, metadata max_versions=1, metadata cas_required} on one secret "
-                "path, all interleavings at storage-op granularity up to the preemption bound, linearizability decided by "
-                "brute force over all real-time-consistent sequential orders (reference = the engine run sequentially on a "
-                "fresh Core). H: all sequential histories to depth 3/4 vs an independent versioned-register model. F: every "
-                "single storage failure in each write-type call, transactional and non-transactional storage; "
-                "non-trivial = distinct (scenario, observations, final state)",
-        "assumptions": [
-            "sequential reference for S is the implementation itself; sequential semantics are judged separately by the H model",
-            "the H model specifies versions, CAS, reads, delete/undelete/destroy; error classes of patch on a missing version and metadata pruning are only covered through S",
-        ],
-        "units": [
-            {"name": "core", "pkg": "./internal/verifh/core", "run": "^TestVerifC14$", "rewrite": SYNC_RW, "gomaxprocs": 2,
-             "shards": {"quick": 16, "thorough": 16}, "timeout": {"quick": 900, "thorough": 3400}},
-        ],
-    },
-    "C18": {
-        "level": "model_checking",
-        "rule": "one response-wrapping token (wrapped secret; thorough: also wrapped list and wrapped login) attacked by every "
-                "multiset of 2 (thorough: 3) concurrent requests from {unwrap as client token, third-party unwrap, rewrap, "
-                "lookup, revoke-by-accessor, direct cubbyhole read, misuse on another path}; stateless DFS over all "
-                "interleavings at storage-operation granularity up to the preemption bound, followed by a sequential tail of "
-                "repeated attempts on the original and every rewrapped token; non-trivial = distinct (scenario, outcome)",
-        "assumptions": [
-            "a disclosure is a successful response containing the payload canary (for wrapped logins: a client token)",
-            "TTL expiry of wrapping tokens is not explored in this check (needs a clock seam); see DESIGN.md",
-        ],
-        "units": [
-            {"name": "core", "pkg": "./internal/verifh/core", "run": "^TestVerifC18$", "rewrite": SYNC_RW, "gomaxprocs": 2,
-             "shards": {"quick": 16, "thorough": 16}, "timeout": {"quick": 900, "thorough": 3400}},
-        ],
-    },
-    "C19": {
-        "level": "model_checking",
-        "rule": "for n in 1..N and every multiset of m=n+1 request kinds {read, write, denied, leased read, lookup-self, "
-                "token create} presenting the same use-limited token: stateless DFS over all interleavings at "
-                "storage-operation granularity (blocked-lock aware) up to the preemption bound on a real Core booted from a "
-                "snapshot; non-trivial = distinct (scenario, observable outcome)",
-        "assumptions": [
-            "scheduling points: every operation reaching the physical backend + contended locks (vsync shim); lease expiry "
-            "is turned into an explicit drain step (recording expireFunc)",
-            "counted as authorised: backend operation-handler invocations + successful core-handled requests",
-        ],
-        "units": [
-            {"name": "core", "pkg": "./internal/verifh/core", "run": "^TestVerifC19$", "rewrite": SYNC_RW, "gomaxprocs": 2,
-             "shards": {"quick": 16, "thorough": 16}, "timeout": {"quick": 900, "thorough": 3400}},
-        ],
-    },
-    "C08": {
-        "level": "model_checking",
-        "rule": "every merge order of the steps of 2 (and 3) transaction/plain-write programs drawn from a 26-template "
-                "alphabet built to collide (write skew, phantoms, blind writes, RMW, paginated lists, read-your-writes, "
-                "read-only misuse, rollback), on every transactional stack; each step is compared with a serial reference "
-                "in commit order; states = (program set, initial state) scenarios, transitions = steps executed on the "
-                "implementation; non-trivial = distinct (stack, commits, conflicts, final state)",
-        "assumptions": [
-            "serial reference in commit order; value-based validation (A-B-A commits); spurious conflicts are allowed by "
-            "the statement ('commits only if') and only counted, except that a conflict with no committed change since "
-            "begin is a violation",
-            "PostgreSQL transactional backend not reachable offline",
-        ],
-        "units": [
-            {"name": "storage", "pkg": "./internal/verifh/storage", "run": "^TestVerifC08$",
-             "shards": {"quick": 16, "thorough": 16}, "timeout": {"quick": 900, "thorough": 3000}},
-            {"name": "raft", "pkg": "./internal/physical/raft", "run": "^TestVerifC08Raft$", "env": RAFT_ENV,
-             "ulimit_kb": 64 * 1024 * 1024,
-             "shards": {"quick": 16, "thorough": 16}, "timeout": {"quick": 600, "thorough": 3000}},
-        ],
-    },
-    "C09": {
-        "level": "model_checking",
-        "rule": "every log up to the length bound over {6 plain writes, 5 transaction templates x every start index}; "
-                "for each log every batching, every restart position and every snapshot-install position (x every "
-                "already-applied prefix) is executed on real FSMs and compared with the serial value-based reference; "
-                "non-trivial = distinct (reference verdict vector, final state, length)",
-        "assumptions": [
-            "log entries are built the way an honest leader builds them (real createVerificationEntry / "
-            "createListVerificationEntry over the reference state at the start index; honest LowestActiveIndex)",
-            "bolt on tmpfs; hashicorp/raft itself is not in the loop (ApplyBatch/Restore/NewFSM are driven directly)",
-        ],
-        "units": [
-            {"name": "raftfsm", "pkg": "./internal/physical/raft", "run": "^TestVerifC09$", "env": RAFT_ENV,
-             "ulimit_kb": 64 * 1024 * 1024,
-             "shards": {"quick": 16, "thorough": 16}, "timeout": {"quick": 900, "thorough": 3000}},
-        ],
-    },
-    "C13": {
-        "level": "model_checking",
-        "rule": "BFS over put/delete(/get) histories on a fixed key universe; a state is distinct by (stack, sorted "
-                "content, per-key last-op kind); every transition replays the history on a fresh real instance and "
-                "compares the whole read battery (get/list/listpage x prefixes x after x limit) with a sorted-map "
-                "reference; non-trivial = distinct (stack, canonical state)",
-        "assumptions": [
-            "reference model: sorted map; list = immediate children with '/' suffix for sub-prefixes; "
-            "listpage = entries of the sorted listing strictly greater than 'after', first 'limit' when limit > 0",
-            "file backend claimed only on its stated domain (directory-shaped prefixes)",
-            "PostgreSQL backend not reachable offline",
-        ],
-        "units": [
-            {"name": "storage", "pkg": "./internal/verifh/storage", "run": "^TestVerifC13$",
-             "shards": {"quick": 16, "thorough": 16}, "timeout": {"quick": 600, "thorough": 3000}},
-            {"name": "raft", "pkg": "./internal/physical/raft", "run": "^TestVerifC13Raft$", "env": RAFT_ENV,
-             "ulimit_kb": 64 * 1024 * 1024,
-             "shards": {"quick": 4, "thorough": 4}, "timeout": {"quick": 900, "thorough": 3000}},
-        ],
-    },
-}
-
-# Per-property manifest text.
-META = {
-    "C05": {
-        "engines": "E0 E2 E3",
-        "technique": "exhaustive input-lattice enumeration of the real TTL computation; BFS over renew/age/restart histories on a real Core; crash-point enumeration",
-        "text": "The TTL arithmetic is a pure function of a small tuple: the whole lattice is enumerated and compared with the bound the "
-                "statement gives. Renewal sequences and 'every stored lease is tracked' are history/crash properties: all histories to "
-                "depth 3/4 and all crash points of renew/revoke are executed on a real Core with stored records aged in place.",
-        "note": "Trusted: the arithmetic reading of the statement, aging stored records as a stand-in for elapsed time. Values outside the 6-point lattice are not covered.",
-    },
-    "C06": {
-        "engines": "E0 E2",
-        "technique": "exhaustive single-fault and crash-point enumeration over the physical write history of each credential-issuing request on a real Core",
-        "text": "Every storage operation of every credential-issuing request kind is failed once, and the server is crashed after every "
-                "durable mutation and restarted; the oracle checks lease/index existence when the client received the credential, "
-                "backend-side revocation + zero residue + unusable token when it received an error, and the stored-lease = tracked-lease "
-                "invariant after restart. The quantifier is 'every failure/crash point within the request': a finite list the fault-free pass enumerates.",
-        "note": "Trusted: physx fault model (whole-operation failure, whole-key atomic writes), deterministic id generation. One fault per run.",
-    },
-    "C04": {
-        "engines": "E0 E1 E2 E3",
-        "technique": "explicit-state BFS over token histories vs tree model; exhaustive single-fault and crash-point enumeration with retry; stateless DFS over revoke||create interleavings",
-        "text": "Three exhaustive enumerations on a real Core: every history up to depth 3/4 over the token-lifecycle alphabet (oracle on "
-                "every token after every step), every single storage fault and every crash point inside each of five revocation entry "
-                "points followed by retry, and every interleaving (preemption bound 2/3) of a tree revocation with concurrent child "
-                "creation. The property quantifies over histories x schedules x fault positions; each factor is small and finite for a "
-                "3-level tree.",
-        "note": "Trusted: scheduler shim, token-tree model, deterministic drain. Bounded: <=4 tokens in H, one fault per run, namespaces not varied here.",
-    },
-    "C14": {
-        "engines": "E0 E1 E2 E3",
-        "technique": "stateless DFS over thread interleavings of the real Core + brute-force linearizability; BFS over histories vs model; exhaustive single-fault injection",
-        "text": "Concurrent requests on one kv-v2 path are explored over every interleaving (preemption bound 2; thorough: unbounded for "
-                "pairs) and each execution must be linearizable; sequential histories to depth 3/4 are checked against an independent "
-                "versioned-register model; each write-type call is re-run with its k-th storage operation failing for every k. "
-                "CAS exactness and version consecutiveness under concurrency are schedule properties; failure atomicity is a "
-                "fault-position property; both spaces are finite for 2-3 short requests.",
-        "note": "Trusted: scheduler shim, the sequential engine as linearizability reference, the H model. Bounded: one path, <=3 requests, depth <=4.",
-    },
-    "C18": {
-        "engines": "E0 E1 E2",
-        "technique": "stateless DFS over thread interleavings of the real Core (cooperative scheduler, preemption bound 2) at storage-op granularity",
-        "text": "Every interleaving with at most 2 preemptions of each pair (thorough: triple) of concurrent requests on one wrapping "
-                "token, then repeated sequential attempts; the payload must be obtained exactly once overall (at most once when a "
-                "revoke/misuse thread is present), the token must be dead and its token/lease/cubbyhole records gone afterwards, "
-                "lookup must report the creating path and the token must be refused elsewhere. 'At most once' under concurrency is "
-                "decided by the order of the use-count decrement against lookups, exactly what schedule enumeration covers.",
-        "note": "Trusted: scheduler shim, canary-based disclosure detection. Not covered: TTL expiry of the wrapping token, control-group wrapping.",
-    },
-    "C19": {
-        "engines": "E0 E1 E2",
-        "technique": "stateless DFS over thread interleavings of the real Core (cooperative scheduler, iterative preemption bounding) at storage-op granularity",
-        "text": "Every interleaving with at most 2 (quick) / 3 (thorough) preemptions of m=n+1 concurrent requests on one use-limited "
-                "token, for every multiset of six request kinds, n<=2 (quick) / n<=3 (thorough); the oracle counts backend "
-                "invocations and successes, probes the token after quiescence, checks backend-side revocation of leases and "
-                "identifies the final use from the physical op log. Races between re-read, decrement and store are schedule bugs; "
-                "bounded exhaustive scheduling is the technique that decides them.",
-        "note": "Trusted: scheduler shim (sync->vsync rewrite), Go runtime. Not modelled: memory-model effects below lock granularity, "
-                "goroutines spawned by requests (run free; their storage ops are counted as impure).",
-    },
-    "C08": {
-        "engines": "E0 E3",
-        "technique": "exhaustive enumeration of all interleavings of small transaction programs on the real backends vs serial commit-order reference",
-        "text": "Exhaustive within the bound: all interleavings of every pair (and selected triples) of 26 colliding transaction "
-                "programs on transactional inmem and all wrapping layers, plus the real raft backend with the FSM-apply "
-                "event owned by the harness (every lag shape up to the bound). Serializability is a property of "
-                "all schedules; for 2-3 short transactions the schedule space is finite and small enough to cover completely.",
-        "note": "Trusted: serial reference, error classification through errors.Is. Bounded: <=3 programs of <=5 steps, 6 keys. "
-                "PostgreSQL excluded. For raft, hashicorp/raft's goroutines run free but every event the oracle depends on is sequenced by the harness.",
-    },
-    "C09": {
-        "engines": "E0 E3",
-        "technique": "explicit-state enumeration of logs x batchings x restart/snapshot positions on real FSM replicas vs serial value-based reference",
-        "text": "Exhaustive within the bound: all logs of length <=3 (quick) / <=4 (thorough) over plain writes and transactions with "
-                "every start index, each applied under every batch partition, every restart position and every snapshot-install "
-                "position on real bolt-backed FSMs; verdicts and final bytes must equal a serial reference. The property is a "
-                "determinism claim over (log x batching x crash point), a finite product that can be enumerated completely for small logs.",
-        "note": "Trusted: reference model, honest-leader log construction. Not covered: hashicorp/raft internals, logs longer than the bound, chunked entries.",
-    },
-    "C13": {
-        "engines": "E0 E3",
-        "technique": "explicit-state BFS over operation histories on the real backends, full read battery vs sorted-map reference in every state",
-        "text": "Exhaustive within the bound: every put/delete(/get) history up to the stated depth over a key universe built to "
-                "collide (nested keys, key that is also a prefix, shared string prefixes, unicode, 255-byte key) on every stack of "
-                "layers, and in each reached state every get/list/listpage(prefix x after x limit) is compared with a sorted-map "
-                "reference. This is the right level because the contract is a finite-state relation between a history and its reads; "
-                "bugs hide in (content shape) x (after/limit) products the unit tests never form.",
-        "note": "Trusted: the sorted-map reference, Go runtime, tmpfs for file/bolt. Bounded: depth 3 (quick) / 4 (thorough), fixed key universe and after/limit sets; PostgreSQL excluded (no server offline); file backend only on its stated domain.",
-    },
-}
+CHECKS, META = {}, {}
+for _f in sorted(glob.glob(os.path.join(_here, "checks.d", "C*.py"))):
+    _pid = os.path.basename(_f)[:-3]
+    _spec = importlib.util.spec_from_file_location("checks_d_" + _pid, _f)
+    _m = importlib.util.module_from_spec(_spec)
+    _spec.loader.exec_module(_m)
+    CHECKS[_pid] = _m.CHECK
+    META[_pid] = _m.META
 
 _PENDING = "check not built yet in this session (planned in DESIGN.md section 3); no claim is made"
 NOT_APPLICABLE = {("C%02d" % i): _PENDING for i in range(1, 21)}
